@@ -18,6 +18,7 @@ See the License for the specific language governing permissions and
 limitations under the License.
 """
 
+import re
 from sfc_models.utils import list_tokens, get_invalid_variable_names, get_invalid_tokens, replace_token
 
 
@@ -91,6 +92,9 @@ class EquationParser(object):
                 continue
             varname = splitted[0].strip()
             eqn = splitted[1].strip()
+            if len(varname) == 0:
+                msg += 'Line without a variable name - ignored: "%s"\n' % (equation,)
+                continue
             self.AllEquations[varname] = eqn
             if varname == 'MaxTime':
                 try:
@@ -112,7 +116,8 @@ class EquationParser(object):
             if mode == 'endogenous':
                 # Remove initial conditions equations
                 if '(0)' in varname:
-                    varname = varname.replace('(0)', '')
+                    # ('x (0) = 1.' is accepted as well as 'x(0) = 1.')
+                    varname = varname.replace('(0)', '').strip()
                     self.InitialConditions[varname] = eqn
                     continue
                 eqn = eqn.replace('(t-1)', '(k-1)')
@@ -121,6 +126,13 @@ class EquationParser(object):
                 if pos == -1:
                     self.Endogenous.append((varname, eqn))
                 else:
+                    # A lagged variable is the previous value of ONE variable: 'x = y(k-1)'. Anything else around the lag
+                    # ('y(k-1) + 1', '2*y(k-1)') cannot be represented; report the line instead of dropping part of it.
+                    source = eqn[0:pos].strip()
+                    if len(eqn[pos+5:].strip()) > 0 or re.match('^[A-Za-z_][A-Za-z_0-9]*$', source) is None:
+                        msg += 'Lag inside a larger expression (use a separate variable for the lag) - ignored: "%s"\n' % (equation,)
+                        del self.AllEquations[varname]
+                        continue
                     self.Lagged.append((varname, eqn[0:pos]))
             else:
                 self.Exogenous.append((varname, eqn))
